@@ -561,6 +561,13 @@ func (e *Exec) checkFrameAgainst(mods []ast.Expr, entry *State, finals []*State,
 				a := get(heapKey(base.T.Name, path[0].Name))
 				a.objs = append(a.objs, base.S)
 			}
+		case *ast.StarExpr:
+			// `modifies *p`: the cell p points to (the same as cell(p))
+			pv := e.eval(x.X, sc)
+			if pv.T.K == KRef && pv.T.Name == "" {
+				a := get("P!" + mangle(e.Sort(pv.T.Elem)))
+				a.objs = append(a.objs, pv.S)
+			}
 		case *ast.CallExpr:
 			id, _ := x.Fun.(*ast.Ident)
 			switch {
